@@ -564,3 +564,39 @@ func TestC01ShortTexts(t *testing.T) {
 	}
 	run.Exhaustive()
 }
+
+// TestC01MagicPrefixes: byte order marks and other signatures that a reader of
+// files might want to be clever about, followed by payloads of every short length.
+func TestC01MagicPrefixes(t *testing.T) {
+	prefixes := []string{"\xff\xfe", "\xfe\xff", "\xef\xbb\xbf", "\xff\xfe\x00\x00", "\x00\x00\xfe\xff", "\xef\xbb", "\xef", "\xff", "\xfe", "\x00", "\x00\x00", "\x1f\x8b", "#!", "//", "/*", "=", "@", "\\u", "\x7fELF", "PK\x03\x04", "<?", "{\"", "\r\n", "\u2028", "\ufeff\ufeff"}
+	units := []string{"a", "\x00", "a\x00", "+", "1", "'", "\xff", "\xd8\x00", "\x00\xd8", " ", "\n"}
+	run := h.Begin("C01", "magic-prefixes", fmt.Sprintf("bounded-exhaustive: %d leading byte sequences (byte order marks of UTF-8 / UTF-16 / UTF-32 in both byte orders and their truncations, NUL bytes, gzip / ELF / zip / shebang / comment signatures) x %d payload units repeated 0..9 times, and the prefix repeated / placed after a valid formula; oracle: outcome contract under a 20 s watchdog (returns, no panic, error or complete tree); non-trivial: every case", len(prefixes), len(units)))
+	defer run.End(t)
+	wd := startWatchdog(t, run, 20*time.Second)
+	defer wd.close()
+	var idx int64
+	for _, p := range prefixes {
+		for _, u := range units {
+			for n := 0; n <= 9; n++ {
+				for _, text := range []string{p + strings.Repeat(u, n), "a+1" + p + strings.Repeat(u, n), p + p + strings.Repeat(u, n)} {
+					idx++
+					if !h.Mine(idx) || run.NViolations() >= 3 {
+						continue
+					}
+					c := mkTextCase(text, "")
+					wd.enter("c01", c)
+					msg, cls := checkTotal([]byte(text), 20*time.Second)
+					wd.leave()
+					run.Count(true, cls)
+					if idx%997 == 0 {
+						run.Sample(cls, c.Text)
+					}
+					if msg != "" {
+						run.Fail("c01", c, fmt.Sprintf("%s: %s", c.Text, msg))
+					}
+				}
+			}
+		}
+	}
+	run.Exhaustive()
+}
